@@ -1,23 +1,27 @@
 """C17 - the static-files finder exposes exactly the allowed, non-forbidden files.
 
 Oracle: specs/Finder.tla.  `Exposed(path, cfg)` = some allowed pattern matches the path relative to the
-component directory and no forbidden pattern does; a suffix string matches by *literal* "ends with", a
-compiled regex by its own semantics (small catalogue, each regex with a TLA+ predicate; the harness
+component directory and no forbidden pattern does; a suffix string matches by *literal* "ends with" exactly as
+given - with or without a leading dot (".js", but also "_test.js", "min.js", "js", a whole file name such as
+"LICENSE"; the property says "ends with an allowed suffix", an entry is never rewritten) -, a compiled regex by its own semantics (small catalogue, each regex with a TLA+ predicate; the harness
 calibrates predicate against `re` before blaming the library).  Lookup paths are normalised by the
 specification's own `Norm` (".", "..", absolute): only lookups resolving to an exposed file under the
 root may be answered.
 
-spec -> code: MC_C17  - TLC enumerates every tree of <= MaxFiles files over (5 dirs x 32 names) under the
-                        16 catalogue configurations, checks the theorems (DefaultsHideBackend, ForbidWins,
+spec -> code: MC_C17  - TLC enumerates every tree of <= MaxFiles files over (5 dirs x 35 names) under the
+                        18 catalogue configurations, checks the theorems (DefaultsHideBackend, ForbidWins,
                         EmptyAllowedHidesAll, NoEscape, ...) and exports every state; each is materialised
                         under workdir() and observed through finder.list, finder.find (canonical path,
                         "./", "x/../", absolute, "../r0/", base name, traversal / prefix-trick escapes)
                         and the staticfiles `serve` view.
               MC_C17K - TLC enumerates configurations (allowed / forbidden = unset, empty, or <= k
-                        patterns of a 17-pattern pool; current or deprecated setting name) over one tree
-                        holding all 160 pool paths.
+                        patterns of a 21-pattern pool: 8 dotted suffixes, 9 regexes, 4 plain suffixes
+                        without a leading dot; current or deprecated setting name) over one tree
+                        holding all 175 pool paths.  FinderPools asserts (ASSUME PlainSuffixesTold) that for
+                        every plain suffix the name pool holds a file that ends with it but not with "." + suffix.
 code -> spec: seeded random sessions (random names incl. regex metacharacters, newlines, upper case;
-              random suffix lists derived from the names; 1-2 roots, one of them possibly the
+              random suffix lists derived from the names: extensions cut at a dot, and plain tails cut
+              anywhere - "_a.js" of "test_a.js", "min.js" of "admin.js", whole names -; 1-2 roots, one of them possibly the
               components/ directory of a generated installed app; files added and removed between
               observations; random lookup spellings) recorded on the real finder and validated in one
               TLC batch by Trace_C17.
@@ -27,7 +31,9 @@ Not determined by the property, therefore not demanded (see Finder.tla):
     answered ("may"); a hidden or outside file must never be answered however it is spelled;
   * SuspiciousFileOperation counts as "not exposed";
   * which of static_files_forbidden / forbidden_static_files wins when both are given (never generated);
-  * suffix strings that do not start with "." (documented: "extensions including the leading dot");
+  * suffix strings that are empty, contain "/" (is "the name" the base name or the path?) or a newline: never
+    generated (Finder!SuffixInScope).  Suffix strings without a leading dot ARE generated: the settings docs call
+    the entries "file extensions (including the leading dot)", the property statement determines them as suffixes;
   * regexes that can tell the absolute from the relative path (find() matches the absolute path,
     list() the relative one): the catalogue has none, the sandbox directory names are neutral and the
     harness asserts that for every file;
@@ -70,7 +76,7 @@ REGEXES = {
     "py_anycase": re.compile(r"(?i)\.py\Z"),
     "no_ext": re.compile(r"(^|/)[^./]+\Z"),
 }
-N_NAMES, N_DIRS, N_CFGS, N_PATS = 32, 5, 16, 17
+N_NAMES, N_DIRS, N_CFGS, N_PATS = 35, 5, 18, 21
 OPCHARS = set("+*?()[]{}|^$\\")
 
 
@@ -440,13 +446,17 @@ def model_check_configs(chk: Check, max_a: int, max_f: int, dirs: List[int], ser
 # ---------------------------------------------------------------- code -> spec: random sessions
 DIRPOOL = ["", "", "sub", "sub/deep", "vendor", "vendor/lib", "x/vendor", "test_x", "k.js", "pkg.py/in", "A/B/C/D"]
 DIRPARTS = {p for d in DIRPOOL for p in d.split("/") if p} | {"r0", "r1", "r0x", "zz", "outside.js", "ghost.js"}
-STEMS = ["a", "b", "x", "test_a", "w[1]", "a$", "m.min", ".h", "A", "c.tar", "i.d", "v", "a b", "q(1)", "e^", "n|m", "z*"]
+STEMS = ["a", "b", "x", "test_a", "w[1]", "a$", "m.min", ".h", "A", "c.tar", "i.d", "v", "a b", "q(1)", "e^", "n|m", "z*",
+         "admin", "form_test", "LICENSE", "nodejs", "Makefile"]
 EXTS = [".js", ".py", ".css", ".html", ".JS", ".Js", ".tar.gz", ".tarXgz", ".min.js", ".minXjs", ".c++", ".c",
         ".ccc", ".d.ts", ".dXts", ".pyc", ".py~", "", ".map", ".tpl", ".jsx", ".j", ".ts", ".dj", ".django", ".PY",
         ".js.py", ".py.js", ".svg", ".woff", ".jss", "js", ".", ".."]
 ALPHA = list("abjspycXJS.+-_ $~[]()") + ["\n"]
 CURATED_SFX = [".js", ".py", ".tar.gz", ".min.js", ".c++", ".d.ts", ".JS", ".css", ".html", ".map", ".ts", ".", "..",
                ".j", ".s", ".p.", ".js.", ".a b"]
+# plain suffixes, no leading dot: extension without its dot, tail of a stem, part of a multi-dot extension, whole names
+PLAIN_SFX = ["js", "py", "_test.js", "_a.js", "min.js", "LICENSE", "Makefile", "s", "y", "gz", "tar.gz", "ss", "JS",
+             "est_a.js", "a.js", "a.py", "x.py", "in.min.js", "E", "nodejs", "html", "c++", "1].js", "$.js", "b.css"]
 
 
 def _rand_name(rnd: random.Random) -> str:
@@ -463,9 +473,9 @@ def _rand_name(rnd: random.Random) -> str:
 
 
 def _modelled(s: str) -> bool:
-    """Finder!DevModelled plus the documented shape (leading dot)."""
+    """Finder!SuffixInScope without the "/" and newline clauses (the caller has them)."""
     if not s.startswith("."):
-        return False
+        return bool(s)                   # a plain suffix: literal, any character
     if s.endswith("++") and len(s) >= 4 and s[-3] != ".":
         return not (set(s[:-2]) & OPCHARS)
     return not (set(s) & OPCHARS)
@@ -474,8 +484,19 @@ def _modelled(s: str) -> bool:
 def _rand_suffix(rnd: random.Random, names: List[str]) -> str:
     for _ in range(50):
         x = rnd.random()
-        if x < 0.35 or not names:
+        if x < 0.25 or not names:
             s = rnd.choice(CURATED_SFX)
+        elif x < 0.35:
+            s = rnd.choice(PLAIN_SFX)
+        elif x < 0.55:
+            # a plain tail of a generated name, cut anywhere (mostly not at a dot), or the whole name: the name
+            # ends with it, and ends with "." + tail only if the cut happens to follow a dot
+            n = rnd.choice(names).rstrip("\n")
+            if not n:
+                continue
+            s = n[rnd.randrange(len(n)):] if rnd.random() < 0.75 else n
+            if rnd.random() < 0.1:
+                s = s.swapcase()
         else:
             n = rnd.choice(names).rstrip("\n")
             dots = [i for i, c in enumerate(n) if c == "."]
@@ -670,7 +691,8 @@ def run(tier: str) -> int:
                        "random sessions validated by Trace_C17. One evaluation = one (configuration, file) pair "
                        "or one session; all are non-trivial; distinct by hash")
     chk.assumptions += [
-        "suffix strings start with a dot (documented shape); regexes of the catalogue cannot see the sandbox prefix",
+        "suffix strings are non-empty and hold no '/' or newline (with or without a leading dot, matched as given); "
+        "regexes of the catalogue cannot see the sandbox prefix",
         "non-canonical spellings of exposed files may or may not be answered; hidden/outside files never",
         "static_files_forbidden and forbidden_static_files are never set together",
         "TLA+ regex predicates calibrated against Python re on every pool path before use",
@@ -798,7 +820,38 @@ def selftest(tier: str) -> int:
         orig = fi.get_component_dirs
         return patch(fi, "get_component_dirs", lambda: orig(include_apps=False))
 
+    def rewritten(fn):
+        """Both lists pass through `fn` when the settings are read (the finder itself is untouched)."""
+        oa = InternalSettings.__dict__["STATIC_FILES_ALLOWED"]
+        of = InternalSettings.__dict__["STATIC_FILES_FORBIDDEN"]
+
+        @contextmanager
+        def cm():
+            with patch(InternalSettings, "STATIC_FILES_ALLOWED", property(lambda self: fn(oa.fget(self)))), \
+                    patch(InternalSettings, "STATIC_FILES_FORBIDDEN", property(lambda self: fn(of.fget(self)))):
+                yield
+        return cm
+
+    # "lenient" settings normalisation: "js" is taken to mean ".js" (so "_a.js" becomes "._a.js")
+    dot_prepended = rewritten(
+        lambda v: [f".{p}" if isinstance(p, str) and not p.startswith(".") else p for p in v])
+    # the other spelling of the same idea: entries are stored without the dot (".js" then also matches "nodejs")
+    dot_stripped = rewritten(lambda v: [p.lstrip(".") if isinstance(p, str) and len(p) > 1 else p for p in v])
+
+    def ext_compare(self, path):
+        # a plain suffix is compared with the file's extension / whole base name instead of "ends with"
+        b = os.path.basename(path)
+
+        def hit(p):
+            return p.search(path) if not isinstance(p, str) else (path.endswith(p) if p.startswith(".") else
+                                                                 b == p or os.path.splitext(b)[1] == "." + p)
+        return any(hit(p) for p in app_settings.STATIC_FILES_ALLOWED) and \
+            not any(hit(p) for p in app_settings.STATIC_FILES_FORBIDDEN)
+
     probes = [
+        ("dot-prepended-to-plain-suffix", dot_prepended),
+        ("leading-dot-stripped-from-suffix", dot_stripped),
+        ("plain-suffix-compared-as-extension", valid_with(ext_compare)),
         ("app-directories-not-searched", app_dirs_not_searched),
         ("forbidden-list-ignored", valid_with(forbid_ignored)),
         ("suffix-regex-not-anchored", valid_with(unanchored)),
@@ -818,7 +871,7 @@ def selftest(tier: str) -> int:
 
     def body(chk: Check) -> None:
         model_check_trees(chk, max_files=1, small=[], serve=True)
-        model_check_configs(chk, max_a=1, max_f=1, dirs=[3], pats=[1, 2, 4, 9, 14, 16])
+        model_check_configs(chk, max_a=1, max_f=1, dirs=[3], pats=[1, 2, 4, 9, 14, 16, 18, 19])
         validate_sessions(chk, 60)
 
     rc = run_probes(PID, probes, body)
